@@ -65,6 +65,16 @@ def pm_configs(t):
                          "alphabet": PS.EXPR if part != 15 else PS.XTA, "seed": seed, "newxta": True})
             cfgs.append({"name": "block-pretty:%s#%d" % (pname, si), "mode": "block", "part": part, "builder": "pretty", "tpl": PS.SLOT,
                          "alphabet": PS.EXPR if part != 15 else PS.XTA, "seed": seed, "newxta": True})
+    # every part of the syntax switch through a document builder that is not driven by the XML reader (no template, edge or
+    # instance line open): parse_XTA(text, builder, newxta, part) is a public entry point for each part
+    PARTS = ["S_XTA", "S_DECLARATION", "S_LOCAL_DECL", "S_INST", "S_SYSTEM", "S_PARAMETERS", "S_INVARIANT", "S_EXPONENTIAL_RATE", "S_SELECT", "S_GUARD",
+             "S_SYNC", "S_ASSIGN", "S_EXPRESSION", "S_EXPRESSION_LIST", "S_PROPERTY", "S_XTA_PROCESS", "S_PROBABILITY", "S_INSTANCE_LINE", "S_MESSAGE",
+             "S_UPDATE", "S_CONDITION"]
+    for part, pname in enumerate(PARTS):
+        sigma = PS.DECL + ["int[0,1]", "process", "state", "init", "trans", "->", "system"] if pname in ("S_XTA", "S_DECLARATION", "S_LOCAL_DECL", "S_INST", "S_SYSTEM", "S_XTA_PROCESS") else PS.EXPR
+        for newxta in ((True, False) if part <= 11 else (True,)):
+            cfgs.append({"name": "block-doc:%s%s#0" % (pname, "" if newxta else ":old"), "mode": "block", "part": part, "builder": "doc", "tpl": PS.SLOT,
+                         "alphabet": sigma, "seed": [], "newxta": newxta})
     return cfgs
 
 
@@ -407,6 +417,10 @@ SEM_DECLS = [
     # priorities, progress measures, gantt charts and before/after update with operands of the wrong kind
     "chan priority i < default;", "chan priority c, c;", "chan priority default, default;", "chan priority arr[0] < c;", "chan priority c[1];",
     "before_update { x }", "after_update { c }", "before_update { i = }", "after_update { nosuch() }",
+    # declarations that belong to the global level (the XML reader accepts them among a template's local declarations as well)
+    "process Q95() { state A; init A; }", "process Q96(int p) { int ql; state A, B; init A; trans A -> B { guard ql == p; }; } int after96;",
+    "process Q97() { state A {", "process Q98() { } int after98;", "process T() { state A; init A; }", "before_update { i = 1 } after_update { j = 2 }",
+    "chan priority c < default;", "dynamic D99(int k); dynamic D99(int k);", "process Q100() { state A; init A; } process Q100() { state A; init A; }",
 ]
 SEM_LABELS = {
     "select": ["s : chan", "s : struct { int a; }", "s : int", "s : nosuch", "s : int[0,1], s : int[0,1]", "i : int[0,1]", "s : scalar[2]", "s : int[1,0]", "s : void"],
